@@ -62,7 +62,34 @@ def witnesses():
         Nd("IfElse", 0, [L("succ", 0), L("fail", 0), None]),
         Nd("Loop", 2, [L("succ", 1)]),
         Nd("Seq", 0, [L("succ", 1, k="Sleep"), L("succ", 0, k="Func")]),
+        Nd("Wrap", 0, [L("succ", 3, k="Sleep")]),                         # remaining sleep time across pause/resume
     ]
+
+
+def regressions():
+    """The failing inputs of the four repaired defects (design/C17.md section 4) and close variants: always executed."""
+    L, Nd = P.L, P.Nd
+    res = []
+    for prog, scripts in [
+        (Nd("Par", 0, [L("succ", 1), L("succ", 0)]), [["start", "pause", "resume"], ["start", "pause", "-", "resume"], ["start", "~pause", "resume"]]),
+        (Nd("Par", 2, [L("fail", 0), L("succ", 0), L("never")]), [["start", "pause", "resume"], ["start+pause", "-", "resume"]]),
+        (Nd("Seq", 0, [L("block", 0)]), [["start", "-", "stop"], ["start", "-", "reset"], ["start", "-", "stop+reset+start"]]),
+        (Nd("Wrap", 1, [Nd("Par", 0, [L("block", 1)])]), [["start", "-", "-", "stop"], ["start", "-", "-", "-", "stop"]]),
+        (Nd("Seq", 0, [L("succ", 0), L("never"), L("never")]),
+         [["start", "pause", "-", "resume", "reset+start"], ["start", "pause", "resume", "reset+start"],
+          ["start", "pause", "resume", "stop+reset+start"], ["start", "pause", "resume", "reset", "start"]]),
+        (Nd("IfThen", 0, [L("succ", 0), L("never"), L("fail", 0), L("never")]), [["start", "pause", "resume", "reset+start"]]),
+        (Nd("Loop", 1, [L("succ", 0)]), [["start", "pause", "resume", "reset+start"], ["start", "pause", "-", "resume", "reset+start"]]),
+        (Nd("Repeat", 0, [L("succ", 0)], n=2), [["start", "pause", "resume", "reset+start"]]),
+        (Nd("Par", 0, [L("never"), L("succ", 1)], to=2), [["start"], ["start", "pause", "resume"]]),
+        (Nd("Seq", 0, [L("never")], to=1), [["start"]]),
+        (Nd("IfElse", 0, [L("succ", 0), L("never"), None], to=2), [["start"]]),
+        (Nd("Loop", 0, [L("block", 1)], to=3), [["start"], ["start", "-", "-", "resume"]]),
+        (Nd("Seq", 0, [Nd("Switch", 0, [L("succ", 0, 1), None, L("never"), None], to=1), L("succ", 0)]), [["start"]]),
+    ]:
+        for sc in scripts:
+            res.append({"prog": P.flatten(prog), "script": sc, "passes": len(sc) + 6})
+    return res
 
 
 def write_progs(ctx, name, trees):
@@ -191,12 +218,10 @@ def run_checked(ctx):
     # ---- 2. spec -> code: TLC-enumerated scripts executed on the real trees -------------------------------------------
     progs_w = [P.flatten(t) for t in wit]
     behs = ctx.tlc_gen("Flow", "Gen_ActionTree.tla", "Gen_ActionTree.cfg", env={"PROGS": pw})
-    if quick and len(behs) > 1500:
-        behs = rnd.sample(behs, 1500)
-    jobs = jobs_from_behaviours(progs_w, behs)
+    jobs = regressions() + jobs_from_behaviours(progs_w, behs)
     ctx.sample({"kind": "TLC-enumerated control script executed on the real tree", "program": jobs[len(jobs) // 2]["prog"],
                 "script": jobs[len(jobs) // 2]["script"]})
-    ok, n, tr = validate(ctx, exe, jobs, "gen_bfs", "all scripts (<=3 effective calls, 4 passes) of the witness programs")
+    ok, n, tr = validate(ctx, exe, jobs, "gen_bfs", "regression scenarios + all scripts (<=3 effective calls, 4 passes) of the witness programs")
     if ok:
         ctx.traces_ok -= n
         ctx.replays_ok += n
